@@ -56,6 +56,14 @@ def payloads(rng, tier):
         if a["motifs"] is None or rng.random() < 0.5:
             a["motifs"] = ["".join(rng.choice(NUC) for _ in range(rng.randint(2, k)))]
         yield "find_local_pair", {"first": a, "cfg": gen.related_cfg(rng, a)}
+    # ONE filter object used twice: between the calls every attribute of the object is re-bound to that of another configuration
+    # (often differing only in the filter's own window, which need not equal the order searched) -- the second answer must be the
+    # answer for the object as it is now
+    for _ in range({"quick": 150, "thorough": 1500, "search": 80}[tier]):
+        kk = rng.randint(2, min(kmax, 4))
+        a = gen.local_cfg(rng, rng.randint(1, kk + 1))
+        b = dict(a, k=rng.choice([w for w in range(1, kk + 2) if w != a["k"]])) if rng.random() < 0.6 else gen.local_cfg(rng, rng.randint(1, kk + 1))
+        yield "find_local_pair", {"first": a, "cfg": b, "kk": kk, "same": 1}
     for _ in range(n * 2):
         k = rng.randint(1, kmax)
         yield "valid_graph", {"k": k, "mask": gen.random_mask(rng, k, rng.choice([0.0, 0.05, 0.3, 0.6, 0.9, 1.0])),
@@ -76,10 +84,23 @@ def build(stream, p):
         filt = lambda s: bool(table[sum(NUC.index(c) * 4 ** (k - 1 - i) for i, c in enumerate(s))])
     elif stream in ("find_local", "find_local_pair"):
         cfg = p["cfg"]
-        k = cfg["k"]
+        k = p.get("kk", cfg["k"])
         h, ms = gen.enc_cfg(cfg)
         call = enc_call(43, k, h, ms)
         def run_local():
+            if stream == "find_local_pair" and p.get("same"):
+                try:
+                    shared = gen.make_filter(p["first"])
+                    target = gen.make_filter(cfg)
+                except ValueError:
+                    return dsw.find_vertices(observed_length=k, bio_filter=gen.make_filter(cfg))
+                try:
+                    dsw.find_vertices(observed_length=k, bio_filter=shared)
+                except ValueError:
+                    pass
+                for name, value in target.__dict__.items():
+                    setattr(shared, name, value)
+                return dsw.find_vertices(observed_length=k, bio_filter=shared)
             if stream == "find_local_pair":
                 try:        # an earlier call with a closely related filter must leave nothing behind
                     dsw.find_vertices(observed_length=k, bio_filter=gen.make_filter(p["first"]))
@@ -105,7 +126,7 @@ def build(stream, p):
             if [int(x) for x in raw] != want:
                 return "mask differs from the filter applied to the enumerated k-mers"
             return None
-        dom = stream == "find_user" or (p["cfg"]["run"] is None or p["cfg"]["run"] <= k)
+        dom = stream == "find_user" or ((p["cfg"]["run"] is None or p["cfg"]["run"] <= p["cfg"]["k"]) and filt is not None)
         nt = True
         return Case(stream, p, call if dom else None, impl, oracle, domain=dom, nontrivial=nt, tags=["k=%d" % k])
     if stream == "valid_graph_none":
@@ -114,6 +135,9 @@ def build(stream, p):
                     nontrivial=False)
     k, mask = p["k"], p["mask"]
     arr = np.array(mask, dtype=bool if p["dtype"] == "bool" else int)
+    import zlib
+    if zlib.crc32(arr.tobytes()) % 4 == 0:
+        arr.setflags(write=False)        # a read-only mask: the function must not need to write to its argument
     call = enc_call(39, k, mask)
     def run_twice():
         # the caller owns the returned accessor (the library's own remove_nasty_arc edits accessors in place): overwrite it,
